@@ -93,6 +93,17 @@ Example ex_tbl_replay :
   run_tbl KBdd ex_terms 2 [] (erase_list ex_sched) = Some (cn_shape (cn ex_final)).
 Proof. vm_compute. reflexivity. Qed.
 
+(** the count-tracking replay of the same schedule ends in the same table, counts included *)
+Example ex_rc_replay :
+  run_rc KBdd ex_terms 2 [] (erase_rc_list ex_sched) = Some (cn ex_final).
+Proof. vm_compute. reflexivity. Qed.
+
+(** it rejects a decrement at count 0 and a collection of a referenced node *)
+Example ex_rc_rejects :
+  step_rc KBdd ex_terms 2 (cn ex_final) (RGc 2) = None /\
+  step_rc KBdd ex_terms 2 [(2%positive, mkC 1 [T0; T1] 0%N)] (RDec 2) = None.
+Proof. vm_compute. split; reflexivity. Qed.
+
 (** BCDD: one terminal, complement edges; a tag flip of an owned edge *)
 Definition bc_terms : list (N * N) := [(0%N, 1%N)].
 Definition B (i : positive) (t : bool) : edge := mkEdge (RN i) t.
